@@ -49,7 +49,7 @@ SPECIAL = [0.0, math.pi / 2, -math.pi / 2, math.pi, -math.pi, 1e-9, -1e-7, 3e-6,
 
 def gen_case(rng):
     sysd = c18.gen_sys(rng)
-    sysd = dict(sysd, max_grad=c18.MAXG * 10, max_slew=c18.MAXS * 10)
+    sysd = dict(sysd, max_grad=c18.MAXG * 1000, max_slew=c18.MAXS * 10000)   # limits are C04's subject
     evs = []
     with_arb = rng.random() < 0.3
     same_timing = rng.random() < 0.2
@@ -375,7 +375,7 @@ def run_rotate(ctx, cases):
 
 
 def corpus():
-    s = {'raster': 1e-5, 'max_grad': 2e7, 'max_slew': 2e11}
+    s = {'raster': 1e-5, 'max_grad': 2e9, 'max_slew': 2e14}
     tx = {'kind': 'trap', 'ch': 'x', 'amp': 100000.0, 'rise': 1e-4, 'flat': 5e-4, 'fall': 1e-4, 'delay': 0.0}
     ty = dict(tx, ch='y', amp=-40000.0, flat=3e-4, delay=1e-4)
     tz = dict(tx, ch='z', amp=25000.0)
